@@ -32,6 +32,8 @@ HOF = {
     "phy::ProfibusPhy::transmit_telegram": "once",
     "phy::ProfibusPhy::receive_telegram": "opt",
     "phy::ProfibusPhy::receive_all_telegrams": "many",
+    # the PDU writer closure runs exactly once inside the call (DataTelegramHeader::serialize); its result is not the call's result
+    "fdl::telegram::TelegramTx::send_data_telegram": "unit",
 }
 
 
@@ -206,6 +208,9 @@ class Interproc:
         # other memory are dropped (always sound) so that they do not multiply contexts
         written = self.ms.of(fn) or set()
         entry_keys = set(k for e in entry_facts for k in e.d)
+        # tiny predicates on a by-value enum parameter (`fn is_stop(self) -> bool { matches!(self, Stop) }`): the variant test *is* the
+        # result, keep it so that the caller learns the variant from the returned bool
+        small_pred = len(fn.blocks) <= 12 and fn.locals[0]["ty"] == "bool" and fn.argc == 1 and not fn.locals[1]["ty"].startswith("&")
         ex = set()
         for rb in fn.return_blocks:
             for fs in ga.at(rb):
@@ -214,9 +219,35 @@ class Interproc:
                     if k[0] == "count":
                         continue
                     if k in entry_keys or any(l[0] == "local" and l[1] == 0 for l in leaves(k)) \
-                            or any(p[:len(w)] == w or w[:len(p)] == p for p in ga.key_paths(k) for w in written):
+                            or any(p[:len(w)] == w or w[:len(p)] == p for p in ga.key_paths(k) for w in written) \
+                            or (small_pred and k[0] == "discr" and k[1][0] == "arg"):
                         d[k] = vs
                 ex.add(Facts(d))
+        # a boolean result that *is* a variant / comparison test of parameters (`fn is_stop(self) -> bool { self == Stop }`):
+        # split the exits on the result so that the caller learns the tested fact from the returned bool
+        if small_pred and len(ga.tb.defs.get(0, ())) == 1:
+            d0 = ga.tb.defs[0][0]
+            t0 = ga.tb.call_term(fn.blocks[d0[1]].term["call"]) if d0[0] == "call" else ga.tb.rvalue(fn.blocks[d0[1]].stmts[d0[2]]["rv"])
+            from .guards import canon_bool
+            kt, vt = canon_bool(t0, True)
+            kf, vf = canon_bool(t0, False)
+            if kt != t0 and kt[0] in ("discr", "cmp") and all(l[0] == "arg" for l in leaves(kt)):
+                if kt[0] == "discr" and kt[1][0] == "arg":
+                    # complement within the enum's variants, so that chains of negative tests can become infeasible
+                    vs_all = self.prog.enum_variants(self.crate, fn.locals[1]["ty"])
+                    if vs_all:
+                        def compl(v):
+                            return ("in", frozenset(vs_all) - v[1]) if v[0] == "notin" else v
+                        vt, vf = compl(vt), compl(vf)
+                ex2 = set()
+                r0 = ("local", 0, None)
+                for e in ex:
+                    for (rv_, (k_, v_)) in ((True, (kt, vt)), (False, (kf, vf))):
+                        g = e.add(r0, ("in", frozenset([rv_])))
+                        g = g.add(k_, v_) if g is not None else None
+                        if g is not None:
+                            ex2.add(g)
+                ex = ex2
         cx.exits = frozenset(ex)
         # panic sites reachable in this context
         for b, c in call_sites(fn):
@@ -434,6 +465,8 @@ class Interproc:
             base0 = self.base_after_call_keep_mem(ga, b, fs)
             if mode == "once":
                 out |= self.run_closure(cx, ga, b, base0, cf, into, back, None, dest)
+            elif mode == "unit":
+                out |= self.run_closure(cx, ga, b, base0, cf, into, back, None, None)
             elif mode == "opt":
                 g = base0.add(("discr", dest), ("in", frozenset(["None"])))
                 if g is not None:
